@@ -649,8 +649,17 @@ class TrG(Tr):
     def loop_body(self, body, state):
         """the statements of one iteration -> (term, mode); variables bound inside die with the iteration"""
         mode = 'res' if any(isinstance(x, ast.Raise) for st in body for x in ast.walk(st)) else 'total'
-        saved, sc, fz = dict(self.vars), list(self.scope), set(self.frozen)
-        term = self.body(body, state, mode)
+        saved, sc, fz, nh = dict(self.vars), list(self.scope), set(self.frozen), len(self.hoisted)
+        try:
+            term = self.body(body, state, mode)
+        except Abstain as ex:
+            if mode == 'res' or 'inside a non-raising body' not in str(ex):
+                raise
+            # no `raise` statement, but a lookup (or an inner loop) that can raise: the body is a res after all
+            self.vars, self.scope, self.frozen = dict(saved), list(sc), set(fz)
+            del self.hoisted[nh:]
+            mode = 'res'
+            term = self.body(body, state, mode)
         for x in state:
             if self.vars[x] != saved[x]:
                 fail(body[0], f'state variable {x} changes type')
@@ -799,11 +808,12 @@ def translate_hasher_init(tree, env, spec, fuelled):                            
     return f'Definition {spec.gname} (length : Z) (base : Z) : hasher :=\n  (mkhasher {vals["length"]} {vals["base"]}).\n'
 
 
-def codec_env(section):
+def codec_env(section, rep):
     e = Env()
     if section:
         e.consts['mk_coordinate'] = ('mk_coordinate', 'fn')
-        e.funcs[('_decode_niemeyer', 'str', 'Z')] = ('(g_decode_niemeyer {0} {1})', ('res', ('tuple', 'Q', 'Q', 'Q', 'Q')))
+        if rep.get('g_decode_niemeyer') == 'translated':      # otherwise the caller abstains too (unknown call)
+            e.funcs[('_decode_niemeyer', 'str', 'Z')] = ('(g_decode_niemeyer {0} {1})', ('res', ('tuple', 'Q', 'Q', 'Q', 'Q')))
     return e
 
 
@@ -834,7 +844,7 @@ def main_codec(repo, out):
     for sec, end, specs in CODEC_PLAN:
         if sec:
             parts.append(sec)
-        e = codec_env(bool(sec))
+        e = codec_env(bool(sec), rep)
         for fn, sp, fuelled in specs:
             try:
                 parts.append(fn(tree, e, sp, fuelled))
